@@ -163,6 +163,18 @@ func optionsSeeds() [][]byte {
 	return out
 }
 
+// defCtl0 returns a first control byte that selects entry e (data[0] % number
+// of entries) and has exactly the given flag bits (0x10 no RSV1, 0x20 reuse,
+// 0x40 EOF with data) among bits 4..6.
+func defCtl0(e int, flags byte) byte {
+	for b := 0; b < 256; b++ {
+		if b%len(defEntries) == e && byte(b)&0x70 == flags {
+			return byte(b)
+		}
+	}
+	panic("no such control byte")
+}
+
 func deflateSeeds() [][]byte {
 	msgs := [][]byte{
 		deflateRaw([]byte("Hello"), 6), deflateRaw([]byte(strings.Repeat("hello ", 500)), 9), deflateRaw(nil, 6), deflateRaw([]byte("stored"), 0),
@@ -170,9 +182,20 @@ func deflateSeeds() [][]byte {
 	}
 	msgs = append(msgs, deflateConsts()...)
 	var out [][]byte
-	for e := range defEntries {
+	for e := 0; e < 4; e++ {
 		for _, m := range msgs {
-			out = append(out, cat([]byte{byte(e), 0}, m), cat([]byte{byte(e) | 0x20, 3}, m))
+			out = append(out, cat([]byte{defCtl0(e, 0), 0}, m), cat([]byte{defCtl0(e, 0x20), 3}, m))
+		}
+	}
+	// reused reader: valid / corrupt / cut payloads in every order, every plan of source kinds and read amounts
+	good, big := deflateRaw([]byte("Hello Hello Hello"), 6), deflateRaw([]byte(strings.Repeat("hello ", 500)), 9)
+	corrupt := []byte{0xff, 0xff, 0xff, 0xff, 0x00, 0x12}
+	cut := big[:len(big)/2]
+	seqs := [][][]byte{{good, good}, {big, good, good}, {corrupt, good}, {cut, good, big}, {good, corrupt, good}, {big, cut}, {nil, good}, {good, nil, corrupt}}
+	for _, seq := range seqs {
+		body := bytes.Join(seq, partSep)
+		for plan := 0; plan < 256; plan += 5 {
+			out = append(out, cat([]byte{defCtl0(4, byte(plan)&0x70), byte(plan)}, body))
 		}
 	}
 	return out
